@@ -328,39 +328,62 @@ MODULE_GLOBALS = {'math': SModule('math'), 'sle': SModule('sle'), 'tt': SModule(
 INSTANCE_BUDGET_S = float(os.environ.get('VERIF_E1_INSTANCE_BUDGET_S', '240'))
 
 
+def _solve(formulas, timeout_ms, reparse=False, seed=0):
+    """one solver attempt.  reparse=True sends the query through its SMT-LIB text into a fresh z3 context: the search of the
+    solver depends on internal term numbering, and the freshly numbered copy is often decided in milliseconds where the
+    in-process terms are not (and vice versa) - so both are tried (portfolio)."""
+    if reparse:
+        s0 = z3.Solver()
+        for f in formulas:
+            s0.add(f)
+        c2 = z3.Context()
+        fs = z3.parse_smt2_string(s0.to_smt2(), ctx=c2)
+        s = z3.Solver(ctx=c2)
+        s.add(fs)
+    else:
+        s = z3.Solver()
+        for f in formulas:
+            s.add(f)
+    s.set('timeout', int(timeout_ms))
+    if seed:
+        s.set('random_seed', seed)
+    t0 = time.time()
+    r = s.check()
+    return str(r), time.time() - t0, s
+
+
 def check_obligation(ctx, ob):
-    """Discharges one obligation.  Wall-clock budgets are retried once with a three-fold budget when the solver gives up, so
-    that a busy machine (all cores loaded) does not turn a discharged obligation into `undecided`."""
+    """Discharges one obligation with a small portfolio (in-process / re-parsed copy, short budgets first, then the full
+    budget and once three times the full budget), so that a busy machine or an unlucky instantiation order does not turn a
+    discharged obligation into `undecided`."""
     from vt.e1 import calls as _calls
     first = Z3_TIMEOUT_MS if ob.expect != 'sat' else min(Z3_TIMEOUT_MS, 5000)
-    total = 0.0
     spent = getattr(ctx, 'solver_time', 0.0)
+    formulas = list(ctx.axioms) + list(_calls.AXIOMS) + list(ob.pc) + [z3.Not(ob.goal)]
     # once a function instance has used its solver budget (only happens when many obligations are undecidable, i.e. on code that
     # left the contract), the remaining obligations get a short budget: they end as `undecided`, never as a verdict
-    budgets = (first, 3 * first) if spent < INSTANCE_BUDGET_S else (2000,)
-    for budget in budgets:
-        s = z3.Solver()
-        s.set('timeout', budget)
-        for a in list(ctx.axioms) + list(_calls.AXIOMS):
-            s.add(a)
-        for p in ob.pc:
-            s.add(p)
-        s.add(z3.Not(ob.goal))
-        t0 = time.time()
-        r = s.check()
-        total += time.time() - t0
-        if r != z3.unknown:
+    if spent >= INSTANCE_BUDGET_S:
+        plan = [(2000, False, 0), (2000, True, 0)]
+    elif ob.expect == 'sat':
+        # model search: hopeless with the heap axioms in the path condition (goes straight to the weaker vacuity guard)
+        plan = [(first, False, 0), (first, True, 0), (3 * first, False, 0)] if not getattr(ctx.contract, 'uses_heap', False) else [(3000, False, 0)]
+    else:
+        plan = [(2000, False, 0), (2000, True, 0), (4000, True, 7), (first, False, 0), (first, True, 3), (3 * first, False, 11)]
+    total, r, s = 0.0, 'unknown', None
+    for (budget, reparse, seed) in plan:
+        r, dt, s = _solve(formulas, budget, reparse, seed)
+        total += dt
+        if r != 'unknown':
             break
-    dt = total
-    ctx.solver_time = spent + (total if r == z3.unknown else 0.0)      # only time wasted on undecided queries counts against the budget
+    ctx.solver_time = spent + (total if r == 'unknown' else 0.0)      # only time wasted on undecided queries counts against the budget
     model = ''
-    if r == z3.sat:
+    if r == 'sat':
         try:
             m = s.model()
             model = '; '.join('%s=%s' % (d.name(), m[d]) for d in list(m.decls())[:40] if d.arity() == 0)
         except Exception:
             model = ''
-    return str(r), dt, model
+    return r, total, model
 
 
 def verify_function(contract, inst, registry):
@@ -485,7 +508,7 @@ def verify_function(contract, inst, registry):
             if r == 'unknown':
                 # the solver cannot build a model of the (quantified) path condition.  Weaker guard: the path condition must not be
                 # refutable within the full obligation budget - a contradictory path condition is what would make proofs vacuous.
-                r2 = _sat(ctx, ob.pc, Z3_TIMEOUT_MS)
+                r2 = _sat(ctx, ob.pc, Z3_TIMEOUT_MS // 2)
                 if r2 == 'unsat':
                     status, detail = UNDEC, 'path condition at return is contradictory: every postcondition would hold vacuously'
                 else:
@@ -507,6 +530,16 @@ def verify_function(contract, inst, registry):
     if not ctx.muted:
         for rec in ctx.reach:
             t1 = time.time()
+            if getattr(contract, 'uses_heap', False):
+                # no model can be built with the heap axioms in the path condition: only look for a contradiction
+                ends = [_sat(ctx, pc, 2500) for pc in rec['ends'][:4]]
+                if ends and all(e == 'unsat' for e in ends) and len(rec['ends']) <= 4 and _sat(ctx, rec['start'], 2500) != 'unsat':
+                    res['obligations'].append({'name': 'reach[%s]:body-end@%d' % (rec['key'], rec['line']), 'kind': 'reach', 'line': rec['line'], 'status': UNDEC, 't': time.time() - t1,
+                                               'detail': 'every path through the body of loop `%s` has a contradictory path condition: preservation obligations are vacuous' % rec['key']})
+                else:
+                    res['obligations'].append({'name': 'reach[%s]:body-end@%d' % (rec['key'], rec['line']), 'kind': 'reach', 'line': rec['line'], 'status': OK, 't': time.time() - t1,
+                                               'detail': 'INCONCLUSIVE vacuity guard: no contradiction derivable at the end of the body of loop `%s` (%s)' % (rec['key'], ends)})
+                continue
             r0 = _sat(ctx, rec['start'], 4000)
             if r0 != 'sat':
                 continue            # dead loop in this instance (or undecided start): nothing to conclude
